@@ -260,6 +260,28 @@ func (e *pureEvaluator) run(fn *ssa.Function, args []*int64, depth int) ([]int64
 					if v, ok := e.oracle(pureInput{kind: "call", name: g.Name(), v: x}); ok {
 						return v, true
 					}
+					// math.Ceil(float64(a) / b) with integral a, b: an exact ceiling division (the only floating-point idiom
+					// the size predicates use; values stay far below 2^53)
+					if g.Pkg != nil && g.Pkg.Pkg.Path() == "math" && g.Name() == "Ceil" && len(x.Call.Args) == 1 {
+						if q, ok := x.Call.Args[0].(*ssa.BinOp); ok && q.Op == token.QUO {
+							integral := func(v ssa.Value) (int64, bool) {
+								if cv, ok := v.(*ssa.Convert); ok {
+									return eval(cv.X)
+								}
+								if c, ok := v.(*ssa.Const); ok && c.Value != nil {
+									if f, exact := constant.Float64Val(constant.ToFloat(c.Value)); exact && f == float64(int64(f)) {
+										return int64(f), true
+									}
+								}
+								return 0, false
+							}
+							a, ok1 := integral(q.X)
+							b, ok2 := integral(q.Y)
+							if ok1 && ok2 && b > 0 && a >= 0 {
+								return (a + b - 1) / b, true
+							}
+						}
+					}
 					if g.Pkg == e.p.RootSSA {
 						rs, ok := e.callStatic(g, x, eval, depth)
 						if ok && len(rs) >= 1 {
